@@ -496,8 +496,11 @@ void reb_simulation_save_to_file(struct reb_simulation* const r, const char* fil
 
         bytesread = (int)fread(&blob,sizeof(struct reb_simulationarchive_blob),1,of);
         if (bytesread!=1){
-            reb_simulation_warning(r, "Simulationarchive appears to be corrupted. A recovery attempt has failed. No snapshot has been saved.\n");
-            return;
+            // The first snapshot is complete but its trailer was cut off (interrupted write). Restore the empty trailer.
+            memset(&blob,0,sizeof(struct reb_simulationarchive_blob));
+            fseek(of, size_old, SEEK_SET);
+            fwrite(&blob,sizeof(struct reb_simulationarchive_blob),1,of);
+            fflush(of);
         }
         int archive_contains_more_than_one_blob = 0;
         if (blob.offset_next>0){
